@@ -14,6 +14,7 @@ import (
 	"encoding/json"
 	"fmt"
 	"math/rand"
+	"sort"
 	"sync"
 	"sync/atomic"
 	"time"
@@ -106,7 +107,10 @@ func nhScenarioMember(rec *nhRec, tid int, seed int64, smType string, store stri
 		out := "noleader"
 		for try := 0; try < 30 && out == "noleader"; try++ {
 			l := r.leaderHost()
-			nh := r.nhOf(l)
+			var nh *NodeHost
+			if l != 0 {
+				nh = r.nhOf(l)
+			}
 			if l == 0 || nh == nil {
 				time.Sleep(10 * time.Millisecond)
 				continue
@@ -155,8 +159,42 @@ func nhScenarioMember(rec *nhRec, tid int, seed int64, smType string, store stri
 		}
 		h.joined = true
 	}
+	c.slowUs = 15000 // slow SaveSnapshot: membership changes are applied while snapshots are being written
 	for s := 0; s < steps; s++ {
 		time.Sleep(time.Duration(5+rng.Intn(30)) * time.Millisecond)
+		// snapshots in the background (concurrent / on-disk state machines keep applying meanwhile)
+		if rng.Intn(100) < 50 {
+			for _, h := range c.hosts {
+				if nh := r.nhOf(h.id); nh != nil && !removed[h.id] && rng.Intn(2) == 0 {
+					func() {
+						defer func() { _ = recover() }()
+						_, _ = nh.RequestSnapshot(c.shard, SnapshotOption{OverrideCompactionOverhead: true,
+							CompactionOverhead: uint64(rng.Intn(3))}, 500*time.Millisecond)
+					}()
+				}
+			}
+		}
+		// a member is restarted now and then: it recovers from its latest snapshot and replays
+		if rng.Intn(100) < 18 {
+			ids := []int{}
+			for id := range voters {
+				ids = append(ids, id)
+			}
+			for id := range nonvot {
+				ids = append(ids, id)
+			}
+			sort.Ints(ids)
+			id := ids[rng.Intn(len(ids))]
+			if r.nhOf(id) != nil {
+				if rng.Intn(2) == 0 {
+					r.stopGracefully(id)
+				} else {
+					r.crash(id, false, rng)
+				}
+				time.Sleep(time.Duration(10+rng.Intn(30)) * time.Millisecond)
+				r.restart(id)
+			}
+		}
 		idx := ccid
 		x := rng.Intn(100)
 		switch {
